@@ -102,10 +102,11 @@ Definition gen_cuts (len : N) : G (list nat) :=
 Definition gen_challenges : G (list bytes) :=
   gen* k := pick 0 [0; 0; 1; 1; 2; 3] in
   grepeat (N.to_nat k) (grepeat 4 (pick 255 [0; 10; 65; 92; 255; 254; 1; 128])).
-Definition gen_reply_opts (e : engine) (protocol : N) (payload_len : N) (comp : option bytes) : G reply_opts :=
+(* a server numbers its answers: the three replies of one exchange get distinct ids *)
+Definition gen_reply_opts (e : engine) (protocol : N) (payload_len : N) (comp : option bytes) (base k : N) : G reply_opts :=
   gen* ch := gen_challenges in
   gen* t := below 5 in
-  gen* id := gnum 31 in
+  let id := (base + k) mod 2147483648 in
   gen* tr := (match comp, e with
               | Some c, Source _ => gen* cuts := gen_cuts (lenN c) in gret (SplitBz cuts id ((protocol =? 7) && engine_is e 240) c)
               | _, _ =>
@@ -127,8 +128,9 @@ Definition gen_valve (comp : option bytes * option bytes * option bytes)
   gen* g := gen_gather in
   gen* st := gen_state e in
   let '(c1, c2, c3) := comp in
-  gen* o1 := gen_reply_opts e 0 (lenN (enc_info (vs_info st))) c1 in
+  gen* base := gnum 31 in
+  gen* o1 := gen_reply_opts e 0 (lenN (enc_info (vs_info st))) c1 base 0 in
   let proto := info_protocol (vs_info st) in
-  gen* o2 := gen_reply_opts e proto (lenN (enc_players (vs_players st))) c2 in
-  gen* o3 := gen_reply_opts e proto (lenN (enc_rules (vs_rules st))) c3 in
+  gen* o2 := gen_reply_opts e proto (lenN (enc_players (vs_players st))) c2 base 1 in
+  gen* o3 := gen_reply_opts e proto (lenN (enc_rules (vs_rules st))) c3 base 2 in
   gret (e, g, st, mk_vopts o1 o2 o3).
